@@ -134,6 +134,7 @@ uint64_t hash_bytes(const void* p, size_t n, uint64_t h);
 void set_dispatch(int native);
 enum { DISP_GENERIC = 0, DISP_NATIVE = 1, DISP_AVX2_ONLY = 2, DISP_FMA_ONLY = 3, N_DISP = 4 };
 extern const char* const disp_name[N_DISP];
+extern int g_case_aligned;  // set by case_begin for a quarter of the cases: all guarded buffers 64-byte aligned
 extern int g_dispatch_native;
 static inline const char* dispatch_name(void) { return disp_name[g_dispatch_native & 3]; }
 
